@@ -11,6 +11,6 @@ CONSTANTS
   HistKinds = {"plain", "plain_dist", "prot_dist"}
   HistFails = {"none", "signer"}
   Calls <- HistCalls
-INVARIANTS TypeOK DomainRight Memoryless HandedOwn SigCorrect NoSignatureWithoutDomain ErrorHasNoSignatures
+INVARIANTS TypeOK DomainRight Memoryless HandedOwn SigCorrect NoSignatureWithoutDomain ErrorHasNoSignatures RefusedForCause
 PROPERTIES ReplyStable
 CHECK_DEADLOCK FALSE
